@@ -1,7 +1,7 @@
 //! cypher14 stream (C14): Cypher write statements through the real nervusdb::Db (auto-commit or
 //! multi-statement transactions), then a traversal from both endpoints.
 //!
-//! ops: open | q <stmt…> (own transaction) | qbegin | qs <stmt…> | qcommit | qabort | check
+//! ops: open | q <stmt…> (own transaction) | qbegin | qs <stmt…> | qcommit | qabort | compact | check
 use super::engine::{new_tempdir, tag_reads};
 use super::{no_child, State, StreamDef};
 use crate::rng::Rng;
@@ -104,6 +104,14 @@ impl State for St {
                 self.txn = None;
                 "ok".into()
             }
+            ["compact"] => {
+                self.txn = None;
+                match self.db.as_ref().map(|d| d.compact()) {
+                    Some(Ok(())) => "ok".into(),
+                    Some(Err(_)) => "err".into(),
+                    None => "nodb".into(),
+                }
+            }
             ["check"] => {
                 let Some(db) = self.db.as_ref() else { return "nodb".into() };
                 let snap = db.snapshot();
@@ -167,11 +175,72 @@ fn gen_stmt(rng: &mut Rng, next_tag: &mut u32, tags: &[u32]) -> String {
     }
 }
 
+/// every delete / detach-delete scenario AFTER compaction(s): the relationships live in a CSR segment,
+/// the delete is the first transaction after the compaction or a later one, in its own transaction or
+/// inside a multi-statement one; `check` traverses from both end nodes in both directions
+fn gen_after_compaction(rng: &mut Rng, out: &mut dyn Write) {
+    writeln!(out, "open").unwrap();
+    // a small graph: 1 -> 2, 3 -> 2, 3 -> 1, 2 -> 4 (tags), sometimes a self loop and a parallel relationship
+    writeln!(out, "q CREATE (:A {{k: 1}})-[:R]->(:B {{k: 2}})").unwrap();
+    writeln!(out, "q CREATE (:A {{k: 3}})").unwrap();
+    writeln!(out, "q CREATE (:B {{k: 4}})").unwrap();
+    for (a, b) in [(3, 2), (3, 1), (2, 4)] {
+        writeln!(out, "q MATCH (a {{k: {}}}), (b {{k: {}}}) CREATE (a)-[:R]->(b)", a, b).unwrap();
+    }
+    if rng.chance(1, 3) {
+        writeln!(out, "q MATCH (a {{k: 1}}), (b {{k: 2}}) CREATE (a)-[:R]->(b)").unwrap();
+    }
+    if rng.chance(1, 4) {
+        writeln!(out, "q MATCH (a {{k: 4}}), (b {{k: 4}}) CREATE (a)-[:R]->(b)").unwrap();
+    }
+    writeln!(out, "check").unwrap();
+    let mut next_tag = 4u32;
+    let rounds = 1 + rng.below(3);
+    for _ in 0..rounds {
+        writeln!(out, "compact").unwrap();
+        writeln!(out, "check").unwrap();
+        // delete in the FIRST transaction after the compaction, or after other transactions
+        for _ in 0..rng.below(3) {
+            next_tag += 1;
+            writeln!(out, "q CREATE (:A {{k: {}}})", next_tag).unwrap();
+        }
+        let victim = 1 + rng.below(4);
+        let other = 1 + rng.below(4);
+        let stmt = match rng.below(6) {
+            0 | 1 => format!("MATCH (a {{k: {}}}) DETACH DELETE a", victim),
+            2 => format!("MATCH (a {{k: {}}}) DELETE a", victim),
+            3 => format!("MATCH (a {{k: {}}})-[r:R]->(b {{k: {}}}) DELETE r", victim, other),
+            4 => format!("MATCH (a {{k: {}}}) DETACH DELETE a", other),
+            _ => format!("MATCH (a {{k: {}}})-[r:R]->(b {{k: {}}}) DELETE r", other, victim),
+        };
+        if rng.chance(1, 3) {
+            writeln!(out, "qbegin").unwrap();
+            writeln!(out, "qs {}", stmt).unwrap();
+            if rng.chance(1, 2) {
+                writeln!(out, "qs MATCH (a {{k: {}}}) DELETE a", victim).unwrap();
+            }
+            writeln!(out, "{}", if rng.chance(5, 6) { "qcommit" } else { "qabort" }).unwrap();
+        } else {
+            writeln!(out, "q {}", stmt).unwrap();
+        }
+        writeln!(out, "check").unwrap();
+        if rng.chance(1, 2) {
+            writeln!(out, "q MATCH (a {{k: {}}}) DELETE a", victim).unwrap();
+            writeln!(out, "check").unwrap();
+        }
+    }
+}
+
 fn generate(rng: &mut Rng, n: usize, _tier: &str, sink: &mut dyn Write) {
     for case in 0..n {
         writeln!(sink, "#case {}", case).unwrap();
         let mut buf: Vec<u8> = Vec::new();
         let out: &mut dyn Write = &mut buf;
+        if case % 3 == 2 {
+            gen_after_compaction(rng, out);
+            tag_reads(std::str::from_utf8(&buf).unwrap(), sink);
+            continue;
+        }
         writeln!(out, "open").unwrap();
         let mut next_tag = 0u32;
         let steps = 2 + rng.below(6);
@@ -188,6 +257,10 @@ fn generate(rng: &mut Rng, n: usize, _tier: &str, sink: &mut dyn Write) {
                 writeln!(out, "q {}", gen_stmt(rng, &mut next_tag, &tags)).unwrap();
             }
             writeln!(out, "check").unwrap();
+            if rng.chance(1, 5) {
+                writeln!(out, "compact").unwrap();
+                writeln!(out, "check").unwrap();
+            }
         }
         tag_reads(std::str::from_utf8(&buf).unwrap(), sink);
     }
